@@ -49,7 +49,7 @@ def generate(rng, tier):
                                 tracks=["0", "1", "2", "x", 0, 1, "T0", "T1", "A"])
             s = rng.choice(recs)[0] if recs and rng.random() < 0.85 else gen.rand_segment(rng, regime, span=8)
             cases.append({"k": "newtrack", "regime": regime, "recs": recs, "s": s,
-                          "cand": rng.choice([None, "0", "1", "x", 0, "fresh", "A"]),
+                          "cand": rng.choice([None, "0", "1", "x", 0, "fresh", "A", ""]),
                           "prefix": rng.choice([None, None, "T", ""])})
         for _ in range(n):
             g = rng.choice([["string"], ["int"], ["list", [rng.choice(["g%d" % i, 100 + i]) for i in range(14)]]])
